@@ -277,6 +277,7 @@ func spec_pkgInfoOf(p Package) *pkgInfo { pi, _ := p.(*pkgInfo); return pi }
 //@   ensures spec_methodsOK(spec_pkgInfoOf(result)) && spec_importsOK(spec_pkgInfoOf(result))
 //@   ensures spec_pkgInfoOf(result).imports != nil && len(spec_pkgInfoOf(result).imports) == 0
 //@   note a new package starts with an EMPTY import table (its dependencies are not registered yet) and constructing it touches no other package's table (C13: nothing is resolved before registration is complete)
+//@   lit 3 ensures result
 //@   lit 3 invariant p != nil && p.Package != nil && p.Package.Fset != nil && p.Package.TypesInfo != nil && p.endLineToCommentGroup != nil && p.endLineToTrailingCommentGroup != nil && trailing != nil && p.signatures != nil && p.funcDecls != nil
 //@   lit 3 invariant forall fl fileLine :: has(p.endLineToCommentGroup, fl) && p.endLineToCommentGroup[fl] != nil ==> !spec_declComment(p.endLineToCommentGroup[fl])
 //@   lit 3 invariant forall fl fileLine :: has(p.endLineToTrailingCommentGroup, fl) && p.endLineToTrailingCommentGroup[fl] != nil ==> spec_declComment(p.endLineToTrailingCommentGroup[fl])
@@ -507,12 +508,13 @@ func spec_isRef(t TypeName) bool     { _, ok := t.(*ref); return ok }
 //@   ensures result != nil && result.Path() == r.pkgPath
 
 //@ func Ref
-//@   props C15
+//@   props C15 C03
 //@   assigns nothing
 //@   ensures spec_isRef(result) && fresh(result) && spec_refPath(result) == pkgPath && spec_refName(result) == name
 
 //@ func ParseRef
-//@   props C15
+//@   props C15 C03
+//@   assigns nothing
 //@   ensures Spec_dot(ref) > 0 ==> result1 == nil && spec_isRef(result0) && spec_refPath(result0) == ref[:Spec_dot(ref)] && spec_refName(result0) == ref[Spec_dot(ref)+1:]
 //@   ensures Spec_dot(ref) <= 0 ==> result0 == nil && result1 != nil
 
@@ -578,6 +580,8 @@ func spec_loadInv(u *Universe, local map[string]bool, direct map[string]bool, ro
 //@   loop 4 invariant forall q string :: has(localPkgPaths, q) ==> localPkgPaths[q] == directPkgPaths[q] && spec_modOf(q) != "" && has(rootPkgPaths, spec_modOf(q))
 //@   loop 4 invariant forall q string :: q != p.PkgPath && has(u.pkgs, q) && spec_modOf(q) != "" && has(rootPkgPaths, spec_modOf(q)) ==> has(localPkgPaths, q)
 //@   loop 4 invariant (exists a int :: 0 <= a && a < it4 && p.Module != nil && ks4[a] == p.Module.Path) ==> has(localPkgPaths, p.PkgPath)
+//@   ensures result1 == nil ==> result0 != nil
+//@   ensures result0 != nil ==> fresh(result0)
 //@   ensures result0 != nil ==> result0.sumFile != nil && (forall q string :: has(result0.sumFile.Data, q) ==> result0.sumFile.Data[q] == spec_hashDir(spec_dirOf(q)))
 //@   ensures result0 != nil ==> forall q string :: has(result0.localPkgPaths, q) ==> spec_modOf(q) != ""
 //@   loop 5 assume forall i int :: 0 <= i && i < len(pkgs) ==> pkgs[i] != nil && pkgs[i].Module != nil && spec_pkgFacts(pkgs[i])
@@ -650,7 +654,7 @@ func spec_depth(s string, i int) int {
 //@   props C15 C03 C05
 //@   decreases len(s)
 //@   assigns nothing
-//@   ensures (result1 == nil) == (result0 != nil)
+//@   ensures result1 == nil ==> result0 != nil
 //@   ensures result0 != nil ==> fresh(result0)
 //@   ensures strings.Index(s, "[") <= 0 ==> result0 != nil && len(result0.TypeList) == 0 && result0.Name == Spec_bare(s)
 //@   lit 1 requires started <= i && i <= len(typeListStr)
